@@ -74,7 +74,7 @@ PROPS = {
         "technique": "column-to-field dataflow rule, iterator-chain shape rules, kind propagation",
     },
     "C14": {
-        "rules": [r_fmt.run_c14, r_cost.run_c14, kind_scope("trainer::model"), r_misc.cache, r_misc.idxbase,
+        "rules": [r_fmt.run_c14, r_cost.run_c14, kind_scope("trainer::model"), r_kind.bins("dictgen-bin"), r_misc.cache, r_misc.idxbase,
                   r_codec.run_c18, r_feat.csvdefault, r_writedict.run, r_writedict.chartype],
         "explanation": "FMT: each generated file's row template (delimiters, column count and "
                        "order, quoted surface first, feature last) matches what the compiler's "
@@ -92,7 +92,7 @@ PROPS = {
                      "sign-parity and scale-source rules",
     },
     "C16": {
-        "rules": [r_fmt.run_c16, r_cost.run_c16, kind_scope("trainer::model", "raw_connector"),
+        "rules": [r_fmt.run_c16, r_cost.run_c16, kind_scope("trainer::model", "raw_connector"), r_kind.bins("dictgen-bin", "compile-bin"),
                   r_scorer.reserved0, r_scorer.padval, r_scorer.rowrange, r_scorer.pruneset,
                   r_misc.bigram_details_shape, r_scorer.rawbuild],
         "explanation": "FMT: bigram.left/right lines are `id TAB csv` with 1-based ids (what "
@@ -149,7 +149,7 @@ PROPS = {
         "technique": "kind propagation, format-template decoding, sign-parity rule",
     },
     "C07": {
-        "rules": [r_scorer.run, kind_scope("connector", "scorer", "builder"), r_panic.run_narrow_connector,
+        "rules": [r_scorer.run, kind_scope("connector", "scorer", "builder"), r_kind.bins("compile-bin"), r_panic.run_narrow_connector,
                   r_codec.derived_caches],
         "explanation": "SCORERCHK: in the portable build costs[pos] is read only on the true edge "
                        "of checks[pos] == key1 at pos = bases[key1] ^ key2; in the AVX2 build the "
@@ -184,7 +184,7 @@ PROPS = {
     },
     "C13": {
         "rules": [r_reset.run_counts, r_viterbi.pred, r_misc.enumall, r_misc.sortcmp, r_fmt.mapping_files,
-                  kind_scope("mapper", "worker", "lattice", "dictionary::connector")],
+                  kind_scope("mapper", "worker", "lattice", "dictionary::connector"), r_kind.bins("map-bin")],
         "explanation": "RESET(W2, counts scope): update_connid_counts reads only a lattice that "
                        "the current reset_sentence/tokenize refreshed (or returns for an empty "
                        "sentence); PRED: each counted (right word, left word) pair takes the left "
@@ -323,7 +323,7 @@ PROPS = {
         "level_note": "Trusted: bincode/bincode_derive; rucrf's derived impls.",
         "technique": "sibling cross-check of encoder/decoder MIR",
     },    "C06": {
-        "rules": [r_map.run, r_scorer.rowrange, kind_scope("dictionary::connector", "dictionary::mapper"),
+        "rules": [r_map.run, r_scorer.rowrange, kind_scope("dictionary::connector", "dictionary::mapper"), r_kind.bins("map-bin"),
                   r_misc.optkeep_dictionary],
         "explanation": "MAP rules over the MIR of Dictionary::map_connection_ids_from_iter, "
                        "reset_user_lexicon_from_reader and every map_connection_ids method: the "
